@@ -80,6 +80,14 @@ def endpoints(f):
     return out
 
 
+def include_list_var(f):
+    """the local holding the resolved include list (canonical form: a comprehension over req.nodes_list[:-1])"""
+    from ..pattern import bound_by
+    NET, REQ = f.params[0], f.params[1]
+    hits = bound_by(f.node, f'[next((V_e for V_e in {NET} if V_e.uid == V_node)) for V_node in {REQ}.nodes_list[:-1]]')
+    return hits[0][0] if len(hits) == 1 else None
+
+
 def r2_outcomes(ctx):
     from ..pattern import find, bound_by, mstmt, mexpr
     repo = ctx.repo
@@ -87,11 +95,7 @@ def r2_outcomes(ctx):
     NET, REQ = f.params[0], f.params[1]
     ends = endpoints(f)
     # the resolved include list: V = [] ; for n in req.nodes_list[:-1]: V.append(next(e for e in network if e.uid == n))
-    incl = None
-    for lp in [n for n in walk_no_nested(f.node) if isinstance(n, ast.For)]:
-        b = mstmt(f'for V_node in {REQ}.nodes_list[:-1]:\n    V_nl.append(next((V_e for V_e in {NET} if V_e.uid == V_node)))', lp)
-        if b is not None and any(mstmt('V_nl = []', x, {'V_nl': b['V_nl']}) is not None for x in f.node.body):
-            incl = b['V_nl']
+    incl = include_list_var(f)
     tries = [n for n in walk_no_nested(f.node) if isinstance(n, ast.Try)]
     if len(tries) != 1:
         raise CannotAnalyse('compute_constrained_path: expected one try around the searches')
@@ -273,8 +277,7 @@ def r5_helpers(ctx):
     f = repo.func(RQ, 'explicit_path')
     NL, SRC, DST, NET = f.params[:4]
     ok = False
-    collect = [b for n in f.node.body if isinstance(n, ast.For)
-               for b in [mstmt(f"for V_e in {NL}:\n    if hasattr(V_e, 'oms'):\n        V_po.append(V_e.oms)", n)] if b]
+    collect = [{'V_po': nm} for nm, _, _ in bound_by(f.node, f"[V_e.oms for V_e in {NL} if hasattr(V_e, 'oms')]")]
     if len(collect) == 1:
         po = collect[0]['V_po']
         sr = [nm for nm, _, _ in bound_by(f.node, f'V_n if isinstance(V_n, Roadm) else {SRC}')]
@@ -285,7 +288,7 @@ def r5_helpers(ctx):
             dn = [b for _, _, b in bound_by(f.node, f'V_n if isinstance(V_n, Roadm) else {DST}')][0]['V_n']
             ok = bool(bound_by(f.node, f'next({NET}.successors({SRC}))')) and bound_by(f.node, f'next({NET}.successors({SRC}))')[0][0] == sn and \
                 bool(bound_by(f.node, f'next({NET}.predecessors({DST}))')) and bound_by(f.node, f'next({NET}.predecessors({DST}))')[0][0] == dn
-            edge = find(f'if not ({po}[0].el_list[0] == {sr[0]} and {po}[-1].el_list[-1] == {dr[0]}):\n    return None', f.node)
+            edge = find(f'if {po}[0].el_list[0] != {sr[0]} or {po}[-1].el_list[-1] != {dr[0]}:\n    return None', f.node)
             ok = ok and len(edge) == 1
             first = [b for n in f.node.body for b in [mstmt(f'V_o0 = {po}[0]', n)] if b]
             ok = ok and len(first) == 1
@@ -305,9 +308,8 @@ def r5_helpers(ctx):
     cc = repo.func(RQ, 'compute_constrained_path')
     ep = calls_to(cc, {'explicit_path'})
     ends = endpoints(cc)
-    incl = [b['V_nl'] for lp in walk_no_nested(cc.node) if isinstance(lp, ast.For) for b in [mstmt(
-        f'for V_node in {cc.params[1]}.nodes_list[:-1]:\n    V_nl.append(next((V_e for V_e in {cc.params[0]} if V_e.uid == V_node)))', lp)] if b]
-    ok = len(ep) == 1 and len(incl) == 1 and [ast.unparse(a) for a in ep[0].args] == [incl[0], ends.get('source'), ends.get('destination'), cc.params[0]]
+    incl = [include_list_var(cc)]
+    ok = len(ep) == 1 and incl[0] is not None and [ast.unparse(a) for a in ep[0].args] == [incl[0], ends.get('source'), ends.get('destination'), cc.params[0]]
     ctx.check('R5.helpers', f'{site(cc)} explicit route first', ok, key(cc, 'explicit-call'),
               'the explicit route shortcut is not computed from the resolved include list and the request endpoints')
     ctx.need('R5.helpers', 4)
